@@ -41,7 +41,9 @@ type logScan struct{}
 
 func (logScan) Write(p []byte) (int, error) {
 	s := string(p)
-	if strings.Contains(s, "dial tcp") || strings.Contains(s, "too many open files") || strings.Contains(s, "cannot assign requested address") ||
+	// (a failed name lookup or a refused connection is NOT among them: a changed proxy may well try to reach a backend
+	// that does not exist - that is behaviour to be judged, not a degraded environment)
+	if strings.Contains(s, "too many open files") || strings.Contains(s, "cannot assign requested address") ||
 		strings.Contains(s, "Client.Timeout exceeded") || strings.Contains(s, "i/o timeout") {
 		if atomic.AddInt64(&envTrouble, 1) == 1 {
 			if len(s) > 400 {
